@@ -21,6 +21,7 @@ type (
 		args     *orderedMap
 		rawArgs  respArray
 		multi    bool
+		execDsc  *dataStoreCommand // while running inside EXEC: the command object that owns the exclusive lock
 	}
 	cmdHandler func(ctx *cmdContext, args map[string]any) (respValue, error)
 
